@@ -389,30 +389,16 @@ fn rand_str_fv(rng: &mut Rng) -> FieldValue {
     rng.pick(&boundary_strings()).clone()
 }
 
-fn back_is_i64(v: &FieldValue) -> Option<bool> {
-    match v {
-        FieldValue::Int64(_) => Some(true),
-        FieldValue::Uint64(u) => Some(*u <= i64::MAX as u64),
-        _ => None,
-    }
-}
-
-/// list of ints which all come back from Python in one representation (plus nulls)
+/// list of ints in both representations, freely mixed on either side of 2^63 (plus nulls): a Python
+/// adapter must be able to return such a list (it could not before the repair of F-24)
 fn rand_int_list(rng: &mut Rng) -> FieldValue {
     let n = rng.below(4);
-    let big = rng.chance(1, 3);
     let mut out = vec![];
     for _ in 0..n {
         if rng.chance(1, 6) {
             out.push(FieldValue::Null);
-            continue;
-        }
-        loop {
-            let v = rand_int_fv(rng);
-            if back_is_i64(&v) == Some(!big) {
-                out.push(v);
-                break;
-            }
+        } else {
+            out.push(rand_int_fv(rng));
         }
     }
     FieldValue::List(out.into())
@@ -482,7 +468,8 @@ fn kinds_args(q: usize, items: &[Item], rng: &mut Rng) -> BTreeMap<String, Py> {
             )
         }
         "float-lt" => {
-            // sometimes a Python int beyond the 64-bit ranges (F-25: silently a float)
+            // sometimes a Python int beyond the 64-bit ranges: must be refused (F-25, repaired: it
+            // used to be accepted silently as a float)
             if rng.chance(1, 8) {
                 Py::Int("18446744073709551616".into())
             } else {
